@@ -828,6 +828,7 @@ func (s *Server) doModify(cid string, ops []*spb.AFTOperation, resCh chan *spb.M
 					},
 				}},
 			}
+			continue
 		}
 		if _, ok := s.masterRIB.NetworkInstanceRIB(ni); !ok {
 			// this is an unknown network instance, we should not return
